@@ -17,6 +17,7 @@ from . import builtins as _b  # noqa: F401  (registers builtins)
 
 Z3_TIMEOUT_MS = int(os.environ.get("PYVC_Z3_TIMEOUT_MS", "20000"))
 CVC5_TIMEOUT_S = int(os.environ.get("PYVC_CVC5_TIMEOUT_S", "60"))
+SLOW_BUDGET_S = int(os.environ.get("PYVC_SLOW_BUDGET_S", "150"))
 
 
 class FnResult:
@@ -342,6 +343,7 @@ def discharge(world: World, ex: Exec, res: FnResult, use_cvc5=True, params_by_pa
         groups.setdefault(o.oid, []).append(o)
     axioms = world.axioms()
     ground = [a for a in axioms if not z3.is_quantifier(a)] + ground_pow2_facts(world)
+    slow_spent = [0.0]
     for oid, insts in groups.items():
         t0 = time.time()
         status, backend, model_info, note = "discharged", "z3", None, ""
@@ -377,13 +379,22 @@ def discharge(world: World, ex: Exec, res: FnResult, use_cvc5=True, params_by_pa
                 model_info = {"model": (s.model() if r == z3.sat else s1.model()), "obl": o, "candidate_only": r != z3.sat}
                 note = o.note
                 break
+            # stages 3-5 are slow; a function gets a fixed total budget for them, so that a broken function (many obligations
+            # that no longer discharge) still yields its verdicts within the task deadline
+            if slow_spent[0] > SLOW_BUDGET_S:
+                status = "unknown"
+                note = f"z3: {s.reason_unknown()}; slow-stage budget of {SLOW_BUDGET_S} s for this function exhausted; {o.note}"
+                break
+            t_slow = time.time()
             # 3. cvc5 on the full query (good at nonlinear integer arithmetic and strings)
             r2 = _check_cvc5(s, CVC5_TIMEOUT_S) if use_cvc5 else "unknown"
             if r2 == "unsat":
                 backend = "cvc5"
+                slow_spent[0] += time.time() - t_slow
                 continue
             # 4. z3 with the full budget
             r3, s3 = _check_z3(axioms, o.pc, o.formula, Z3_TIMEOUT_MS)
+            slow_spent[0] += time.time() - t_slow
             if r3 == z3.unsat:
                 continue
             if r3 == z3.sat or r1 == z3.sat or r2 == "sat":
@@ -394,7 +405,9 @@ def discharge(world: World, ex: Exec, res: FnResult, use_cvc5=True, params_by_pa
                 note = o.note
                 break
             # 5. candidate search on a bounded weakening of the hypotheses (never a proof, never a verdict by itself)
+            t_slow = time.time()
             cm = bounded_candidate(ground, o.pc, o.formula)
+            slow_spent[0] += time.time() - t_slow
             if cm is not None:
                 status, backend = "refuted", "z3-bounded-candidate"
                 model_info = {"model": cm, "obl": o, "candidate_only": True, "weakened": True}
